@@ -165,6 +165,10 @@ func TestReplay(t *testing.T) {
 			}
 		case v.Test == "TestExhaustiveSmall":
 			TestExhaustiveSmall(t) // deterministic enumeration
+		case v.Test == "TestPropConcurrentPlans":
+			// a schedule-dependent violation: there is no deterministic replay; the generated search is
+			// repeated (same seed, several schedules per contended case)
+			TestPropConcurrentPlans(t)
 		case v.Test == "TestKnown_full_plan_skips_generation":
 			TestKnown_full_plan_skips_generation(t)
 		case v.Test == "TestKnown_full_plan_skips_oversize_generation":
